@@ -280,8 +280,11 @@ pub struct Driver {
     pub log: Vec<(Op, Resp)>,
     /// Surviving chain: for every finalised height the ops that built it (incl. the finalise).
     pub chain: Vec<Vec<Op>>,
+    /// Responses parallel to `chain`.
+    pub chain_resp: Vec<Vec<Resp>>,
     /// Accepted ops of the block under construction.
     pub cur: Vec<Op>,
+    pub cur_resp: Vec<Resp>,
     pub ntx: u64,
     pub open: Option<(u64, String)>,
     /// Latest finalised height, -1 if none.
@@ -298,7 +301,9 @@ impl Driver {
             inst,
             log: Vec::new(),
             chain: Vec::new(),
+            chain_resp: Vec::new(),
             cur: Vec::new(),
+            cur_resp: Vec::new(),
             ntx: 0,
             open: None,
             height: -1,
@@ -333,6 +338,7 @@ impl Driver {
                     _ => unreachable!(),
                 } {
                     self.chain.push(vec![op.clone()]);
+                    self.chain_resp.push(vec![resp.clone()]);
                     self.height += 1;
                     self.max_ever = self.max_ever.max(self.height);
                 }
@@ -341,6 +347,7 @@ impl Driver {
                 if ok {
                     for _ in 0..*n {
                         self.chain.push(vec![Op::Mine { n: 1, ts: *ts }]);
+                        self.chain_resp.push(vec![resp.clone()]);
                         self.height += 1;
                     }
                     self.max_ever = self.max_ever.max(self.height);
@@ -353,6 +360,7 @@ impl Driver {
                     }
                     self.ntx += 1;
                     self.cur.push(op.clone());
+                    self.cur_resp.push(resp.clone());
                 }
             }
             Op::Transact { ctx, .. } => {
@@ -363,6 +371,7 @@ impl Driver {
                     }
                     self.ntx += n;
                     self.cur.push(op.clone());
+                    self.cur_resp.push(resp.clone());
                 }
             }
             Op::Finalise { .. } => {
@@ -370,6 +379,9 @@ impl Driver {
                     let mut ops = std::mem::take(&mut self.cur);
                     ops.push(op.clone());
                     self.chain.push(ops);
+                    let mut rs = std::mem::take(&mut self.cur_resp);
+                    rs.push(resp.clone());
+                    self.chain_resp.push(rs);
                     self.height += 1;
                     self.max_ever = self.max_ever.max(self.height);
                     self.ntx = 0;
@@ -385,7 +397,9 @@ impl Driver {
                 if ok {
                     self.height = self.committed;
                     self.chain.truncate((self.committed + 1) as usize);
+                    self.chain_resp.truncate((self.committed + 1) as usize);
                     self.cur.clear();
+                    self.cur_resp.clear();
                     self.ntx = 0;
                     self.open = None;
                 }
@@ -393,9 +407,11 @@ impl Driver {
             Op::Reorg { n } => {
                 if ok && (*n as i64) < self.height {
                     self.chain.truncate(*n as usize + 1);
+                    self.chain_resp.truncate(*n as usize + 1);
                     self.height = *n as i64;
                     self.committed = self.height;
                     self.cur.clear();
+                    self.cur_resp.clear();
                 }
             }
             Op::Raw { .. } => {}
